@@ -47,11 +47,15 @@ type frame struct {
 	isRoot  bool
 	dbgVals map[string][]ssa.Value // ident name → values (from DebugRef)
 	escaped map[string]bool        // loc: regions whose address escaped
+	exitSkipped map[string]string
+	exitDone    map[string]bool
+	anc     map[*ssa.BasicBlock]map[int]bool
+	baseAllowed map[int]bool
 }
 
 func (e *Enc) newFrame(fn *ssa.Function, spec *FuncSpec, depth int) *frame {
 	fr := &frame{e: e, fn: fn, spec: spec, vals: map[ssa.Value]string{}, ptrs: map[ssa.Value]*ptrInfo{}, bc: map[*ssa.BasicBlock]string{},
-		edges: map[*ssa.BasicBlock][]*edge{}, depth: depth, params: map[string]binding{}, dbgVals: map[string][]ssa.Value{}, escaped: map[string]bool{}}
+		edges: map[*ssa.BasicBlock][]*edge{}, depth: depth, params: map[string]binding{}, dbgVals: map[string][]ssa.Value{}, escaped: map[string]bool{}, exitSkipped: map[string]string{}, exitDone: map[string]bool{}}
 	for _, b := range fn.Blocks {
 		for _, ins := range b.Instrs {
 			if d, ok := ins.(*ssa.DebugRef); ok && !d.IsAddr {
@@ -111,8 +115,60 @@ func (fr *frame) srcText(pos token.Pos) string {
 	return t
 }
 
-// oblige records an obligation at the current point.
+// splitAnd splits a top-level (and a b c) term into its conjuncts.
+func splitAnd(t string) []string {
+	if !strings.HasPrefix(t, "(and ") {
+		return []string{t}
+	}
+	body := t[5 : len(t)-1]
+	var parts []string
+	depth, start := 0, 0
+	for i := 0; i < len(body); i++ {
+		switch body[i] {
+		case '(':
+			depth++
+		case ')':
+			depth--
+		case ' ':
+			if depth == 0 {
+				if i > start {
+					parts = append(parts, body[start:i])
+				}
+				start = i + 1
+			}
+		}
+	}
+	if start < len(body) {
+		parts = append(parts, body[start:])
+	}
+	var out []string
+	for _, p := range parts {
+		out = append(out, splitAnd(p)...)
+	}
+	return out
+}
+
+// oblige records an obligation at the current point; a conjunction is split into one obligation per conjunct.
 func (fr *frame) oblige(kind, label string, guard, goal string, pos token.Pos, props []string) *Obligation {
+	if kind != "cover" {
+		if parts := splitAnd(goal); len(parts) > 1 {
+			var first *Obligation
+			for k, p := range parts {
+				o := fr.oblige1(kind, fmt.Sprintf("%s.%d", label, k+1), guard, p, pos, props)
+				if first == nil {
+					first = o
+				} else {
+					first.siblings = append(first.siblings, o)
+					o.parent = first
+				}
+			}
+			return first
+		}
+	}
+	return fr.oblige1(kind, label, guard, goal, pos, props)
+}
+
+func (fr *frame) oblige1(kind, label string, guard, goal string, pos token.Pos, props []string) *Obligation {
 	e := fr.e
 	base := fmt.Sprintf("%s/%s#%s", shortFunc(e.root.String()), kind, label)
 	if fr.prefix != "" {
@@ -126,7 +182,7 @@ func (fr *frame) oblige(kind, label string, guard, goal string, pos token.Pos, p
 	if props == nil && e.rootSpec != nil {
 		props = e.rootSpec.Props
 	}
-	o := &Obligation{Name: name, Kind: kind, Func: e.root.String(), Props: props, nOut: len(e.out), Guard: guard, Goal: goal, Pos: e.pos(pos), Params: e.rootParams, enc: e}
+	o := &Obligation{Name: name, Kind: kind, Func: e.root.String(), Props: props, nOut: len(e.out), Guard: guard, Goal: goal, Pos: e.pos(pos), Params: e.rootParams, enc: e, allowed: e.curAllowed}
 	e.obls = append(e.obls, o)
 	return o
 }
@@ -177,7 +233,7 @@ func (fr *frame) ptr(v ssa.Value) *ptrInfo {
 	}
 	elem := pt.Elem()
 	if arr, ok := elem.Underlying().(*types.Array); ok {
-		return &ptrInfo{region: e.memRegion(arr.Elem()), addr: fr.val(v), cell: arr.Elem(), arrLen: arr.Len()}
+		return &ptrInfo{region: e.memRegion(arr.Elem()), addr: fr.val(v), cell: arr.Elem(), arrLen: arr.Len(), flat: true}
 	}
 	return &ptrInfo{region: e.memRegion(elem), addr: fr.val(v), cell: elem}
 }
@@ -296,7 +352,36 @@ func (fr *frame) run(entryBC string, entry *state, args []string) {
 	}
 	order := rpo(fn)
 	states := map[*ssa.BasicBlock]*state{}
+	fr.anc = map[*ssa.BasicBlock]map[int]bool{}
+	savedTag, savedAllowed := e.curTag, e.curAllowed
+	defer func() {
+		// everything the callee emitted happens before the caller's continuation
+		if savedAllowed != nil {
+			for _, a := range fr.anc {
+				for t := range a {
+					savedAllowed[t] = true
+				}
+			}
+		}
+		e.curTag, e.curAllowed = savedTag, savedAllowed
+	}()
 	for _, b := range order {
+		// control-flow cone: lines emitted for blocks that cannot reach b are left out of b's queries
+		e.ntag++
+		allowed := map[int]bool{e.ntag: true}
+		for t := range fr.baseAllowed {
+			allowed[t] = true
+		}
+		for _, p := range b.Preds {
+			if b.Dominates(p) {
+				continue
+			}
+			for t := range fr.anc[p] {
+				allowed[t] = true
+			}
+		}
+		fr.anc[b] = allowed
+		e.curTag, e.curAllowed = e.ntag, allowed
 		var bc string
 		var st *state
 		if b == fn.Blocks[0] {
@@ -795,7 +880,7 @@ func (fr *frame) lookupLocal(name string, at *ssa.BasicBlock, st *state) (bindin
 			if a, ok := ins.(*ssa.Alloc); ok && a.Comment == name {
 				if p, ok := fr.ptrs[a]; ok {
 					elem := a.Type().Underlying().(*types.Pointer).Elem()
-					if p.arrLen > 0 {
+					if p.flat {
 						return binding{term: p.addr, typ: a.Type(), ptr: p}, true
 					}
 					return binding{term: fr.e.load(st, p), typ: elem}, true
